@@ -36,6 +36,7 @@ def gen_trav_case(rng, search=False):
     case = _gen_trav_case(rng, search, eph)
     case["caching"] = True if eph else rng.random() < 0.5    # the answers must not depend on the neighbour memo being in use
     case["ephemeral"] = eph
+    case["warm"] = case["caching"] and rng.random() < 0.5    # ... nor on what neighbors() was asked before, under other settings
     if rng.random() < 0.5:
         case["ops2"] = gen_phase2(rng, case, case.pop("_uid"), case.pop("_vids"), case.pop("_lids"))
     else:
@@ -119,6 +120,8 @@ def _observe_phase(w, case, ops):
         for v, vi in case.get("attrs", {}).items():
             setattr(w.objs[int(v)], "k", VALUES[vi])
         w.values = VALUES
+        if case.get("warm"):
+            Q.warm_memo(w)                   # neighbors() asked under all the common settings before the traversals
         snap = w.snapshot()
         answers, extra = [], []
         for q in case["queries"]:
